@@ -62,13 +62,17 @@ Dec(s) == IF Len(s) = 0 THEN 0 - 1 ELSE DecFrom(s, 1, 0)
 (* a modifier: "fallback" or "psk" followed by a decimal numeral <= 255    *)
 (* (LenientPsk: leading zeros name the same index - the property does not  *)
 (*  define the numeral; a leading "+" sign is NOT a numeral)               *)
-ModKind(m) ==
+(* (hfs build of the crate only: "hfs", the hybrid-forward-secrecy modifier) *)
+ModKindH(m, hfsBuild) ==
   IF m = "fallback" THEN [ok |-> TRUE, kind |-> "fallback", n |-> 0]
+  ELSE IF hfsBuild /\ m = "hfs" THEN [ok |-> TRUE, kind |-> "hfs", n |-> 0]
   ELSE IF Len(m) >= 3 /\ SubSeq(m, 1, 3) = "psk"
        THEN LET v == Dec(SubSeq(m, 4, Len(m))) IN
             IF v >= 0 /\ v <= 255 THEN [ok |-> TRUE, kind |-> "psk", n |-> v]
             ELSE [ok |-> FALSE, kind |-> "badpsk", n |-> 0]
   ELSE [ok |-> FALSE, kind |-> "unknown", n |-> 0]
+ModKind(m) == ModKindH(m, FALSE)
+KemNames == {"Kyber1024"}
 
 (* longest pattern name that is a prefix of the handshake field *)
 PatPrefixLens(hs) == { k \in 1..4 : k <= Len(hs) /\ SubSeq(hs, 1, k) \in PatternNames }
@@ -77,8 +81,11 @@ MaxOf(S) == CHOOSE x \in S : \A y \in S : y <= x
 NoDup(seq) == \A i, j \in 1..Len(seq) : i # j => seq[i] # seq[j]
 
 (* ParseName(s) = [ok, pat, mods (sequence of [kind, n]), dh, cipher, hash] *)
+(* In the hfs build the DH field may be "<dh>+<kem>": everything after the   *)
+(* FIRST "+" names the KEM; a KEM is given iff the hfs modifier is present. *)
 Bad == [ok |-> FALSE]
-ParseName(s) ==
+FirstPlus(s) == LET S == { i \in 1..Len(s) : SubSeq(s, i, i) = "+" } IN IF S = {} THEN 0 ELSE CHOOSE i \in S : \A j \in S : i <= j
+ParseNameH(s, hfsBuild) ==
   LET parts == SplitStr(s, "_") IN
   IF Len(parts) # 5 THEN Bad
   ELSE IF parts[1] # "Noise" THEN Bad
@@ -88,13 +95,20 @@ ParseName(s) ==
       pat  == SubSeq(parts[2], 1, k)
       rest == SubSeq(parts[2], k + 1, Len(parts[2]))
       mstr == IF rest = "" THEN <<>> ELSE SplitStr(rest, "+")
-      mk   == [i \in 1..Len(mstr) |-> ModKind(mstr[i])]
+      mk   == [i \in 1..Len(mstr) |-> ModKindH(mstr[i], hfsBuild)]
       mods == [i \in 1..Len(mstr) |-> [kind |-> mk[i].kind, n |-> mk[i].n]]
+      fp   == IF hfsBuild THEN FirstPlus(parts[3]) ELSE 0
+      dh   == IF fp = 0 THEN parts[3] ELSE SubSeq(parts[3], 1, fp - 1)
+      kem  == IF fp = 0 THEN "" ELSE SubSeq(parts[3], fp + 1, Len(parts[3]))
+      ishfs == \E i \in 1..Len(mods) : mods[i].kind = "hfs"
   IN
   IF \E i \in 1..Len(mstr) : ~mk[i].ok THEN Bad
   ELSE IF ~NoDup(mods) THEN Bad
-  ELSE IF parts[3] \notin DhNames \/ parts[4] \notin CipherNames \/ parts[5] \notin HashNames THEN Bad
-  ELSE [ok |-> TRUE, pat |-> pat, mods |-> mods, dh |-> parts[3], cipher |-> parts[4], hash |-> parts[5]]
+  ELSE IF dh \notin DhNames \/ parts[4] \notin CipherNames \/ parts[5] \notin HashNames THEN Bad
+  ELSE IF fp # 0 /\ kem \notin KemNames THEN Bad
+  ELSE IF ishfs # (fp # 0) THEN Bad
+  ELSE [ok |-> TRUE, pat |-> pat, mods |-> mods, dh |-> dh, kem |-> kem, cipher |-> parts[4], hash |-> parts[5]]
+ParseName(s) == ParseNameH(s, FALSE)
 
 ValidName(s) == ParseName(s).ok
 
@@ -105,4 +119,5 @@ NameBuildCauses(p) ==
   \cup (IF \E i \in 1..Len(p.mods) : p.mods[i].kind = "psk" /\ p.mods[i].n > NumMsgs(p.pat)
         THEN {"B_PSK_INDEX"} ELSE {})
   \cup (IF ~Resolvable(p.dh) THEN {"B_NO_DH"} ELSE {})
+  \cup (IF (\E i \in 1..Len(p.mods) : p.mods[i].kind = "hfs") /\ p.pat \in OneWay THEN {"B_MODIFIER"} ELSE {})
 =============================================================================
